@@ -1,6 +1,7 @@
 package props
 
 import (
+	"fmt"
 	"math"
 	"sort"
 
@@ -575,4 +576,100 @@ func maxOperands(n *m.Node) int {
 		}
 	}
 	return mx
+}
+
+// decisionChain builds a program in which one innermost boolean decides (or fails to decide) a
+// chain of nested and/or operators: at every level the chain continues in one operand of an
+// and/or - mostly the first, sometimes a middle or the last one -, optionally through one or two
+// directly nested `if`s (as the taken or the untaken branch) or a `not`; the other operands are
+// distinct boolean variables, so that the effect trace shows exactly which of them were reached.
+// Half of the chains are coherent: one operator family on every level, and the returned wishes
+// (values for the innermost variable and the `if` conditions) make the innermost value travel
+// through every taken branch and decide every level. applyWishes writes them into the universe.
+func decisionChain(t *rapid.T) (*m.Node, map[string]bool) {
+	coherent := rapid.Bool().Draw(t, "chain_coherent")
+	wish := map[string]bool{}
+	nv := 0
+	freshVar := func() *m.Node {
+		nv++
+		return m.Var(fmt.Sprintf("b%d", nv%10))
+	}
+	fresh := func() *m.Node {
+		v := freshVar()
+		if nv%7 == 0 {
+			return m.Op("c_id", v)
+		}
+		return v
+	}
+	family := rapid.Bool().Draw(t, "chain_family_and")
+	ops := map[bool][]string{true: {"and", "&", "&&", "and"}, false: {"or", "|", "||", "or"}}
+	var cur *m.Node
+	if !coherent && rapid.IntRange(0, 3).Draw(t, "chain_inner") == 0 {
+		cur = m.Const(rapid.Bool().Draw(t, "chain_inner_const"))
+	} else {
+		cur = freshVar()
+		wish[cur.Name] = !family // false decides and, true decides or
+	}
+	depth := rapid.IntRange(2, 9).Draw(t, "chain_depth")
+	for i := 0; i < depth; i++ {
+		maxWraps := 2
+		for w := rapid.IntRange(0, maxWraps).Draw(t, "chain_wraps"); w > 0; w-- {
+			var cond *m.Node
+			if !coherent && rapid.IntRange(0, 2).Draw(t, "chain_cond") == 0 {
+				cond = m.Const(rapid.Bool().Draw(t, "chain_cond_const"))
+			} else {
+				cond = freshVar()
+			}
+			kind := rapid.IntRange(0, 4).Draw(t, "chain_wrap")
+			if coherent && kind == 4 {
+				kind = 0
+			}
+			switch kind {
+			case 0, 1:
+				cur = m.If(cond, cur, fresh())
+				if cond.Kind == m.KVar {
+					wish[cond.Name] = true
+				}
+			case 2, 3:
+				cur = m.If(cond, fresh(), cur)
+				if cond.Kind == m.KVar {
+					wish[cond.Name] = false
+				}
+			default:
+				cur = m.Op("not", cur)
+			}
+		}
+		fam := family
+		if !coherent {
+			fam = rapid.Bool().Draw(t, "chain_and")
+		}
+		op := rapid.SampledFrom(ops[fam]).Draw(t, "chain_op")
+		n := rapid.IntRange(1, 3).Draw(t, "chain_siblings")
+		pos := 0
+		if rapid.IntRange(0, 7).Draw(t, "chain_notfirst") == 0 || (!coherent && rapid.Bool().Draw(t, "chain_notfirst2")) {
+			pos = rapid.IntRange(0, n).Draw(t, "chain_pos")
+		}
+		kids := make([]*m.Node, 0, n+1)
+		for k := 0; k <= n; k++ {
+			if k == pos {
+				kids = append(kids, cur)
+			} else {
+				kids = append(kids, fresh())
+			}
+		}
+		cur = m.Op(op, kids...)
+	}
+	if !coherent {
+		wish = nil
+	}
+	return cur, wish
+}
+
+// applyWishes binds the named boolean variables to the wished values (where the universe binds them at all).
+func applyWishes(u *Universe, wish map[string]bool) {
+	for i := range u.Vars {
+		if w, ok := wish[u.Vars[i].Name]; ok && u.Vars[i].Mode == 0 && u.Vars[i].Ty == m.TBool {
+			u.Vars[i].Val = m.V{X: w}
+		}
+	}
 }
